@@ -174,8 +174,8 @@ func (p *parser) next() token {
 	return t
 }
 
-func (p *parser) isKw(kw string) bool    { t := p.peek(); return t.kind == tIdent && t.s == kw }
-func (p *parser) isPunct(c string) bool  { t := p.peek(); return t.kind == tPunct && t.s == c }
+func (p *parser) isKw(kw string) bool   { t := p.peek(); return t.kind == tIdent && t.s == kw }
+func (p *parser) isPunct(c string) bool { t := p.peek(); return t.kind == tPunct && t.s == c }
 func (p *parser) unexpected(want string) error {
 	return errf("syntax error at or near %v (offset %d): expected %s", p.peek(), p.peek().pos, want)
 }
